@@ -1,6 +1,6 @@
 SPECIFICATION Spec
 CONSTANTS
-  MaxH = 3
+  MaxH = 2
   MaxRestarts = 1
   FullNode = TRUE
   Cap = 2
@@ -8,9 +8,9 @@ CONSTANTS
   GapFix = FALSE
   CertRounds = {1}
   Direct = FALSE
-  MidCrash = TRUE
+  MidCrash = FALSE
   Timeouts = FALSE
-  MaxWriteFaults = 0
+  MaxWriteFaults = 1
 INVARIANT ContainerOK
 INVARIANT TopIsHeight
 INVARIANT StorageShape
